@@ -132,16 +132,21 @@ class Float_from_float(Contract):
 
     def post(x, ctx, checked, result):
         r = result
-        return {
+        out = {
             'wf': r._real._c >= 0 and not (r._isinf and r._isnan),
             # NaN -> NaN, +-inf -> +-inf, finite -> exactly the binary64 value; the sign bit is always kept
             'nan': r._isnan == f64_isnan(x),
             'inf': r._isinf == f64_isinf(x),
             'sign': r._real._s == f64_sign(x),
-            'value': implies(f64_finite(x), t_mag_eq(trip(r), trip(x))),
-            'encoding': implies(f64_finite(x), r._real._exp == f64_exp(x) and r._real._c == f64_c(x)),
             'no_ctx': r._ctx is None,
         }
+        if f64_finite(x):        # (a Python `if`: callers get unconditional equalities on the finite path)
+            out.update({
+                'value': t_mag_eq(trip(r), trip(x)),
+                'exp': r._real._exp == f64_exp(x),
+                'c': r._real._c == f64_c(x),
+            })
+        return out
 
     def raises(x, ctx, checked):
         return {}
@@ -289,4 +294,194 @@ class Float_is_nar(Contract):
         return {'iff': result == (self._isinf or self._isnan)}
 
     def raises(self):
+        return {}
+
+
+# ---------------------------------------------------------------------------
+# arithmetic (H1) with the IEEE 754 tables for NaN / infinities / signed zeros
+
+class Float___add__(Contract):
+    target = 'fpy2.number.number.floats:Float.__add__'
+    params = {'self': 'Float', 'other': 'Float | RealFloat | int | float | Fraction'}
+    returns = 'Float'
+    properties = ['C05']
+    split = ['other']
+    options = {'solve_eqs': True}
+
+    def post(self, other, result):
+        r = result
+        a = trip(self)
+        b = trip(other)
+        o_nan, o_inf, o_neg = special(other)
+        nan_in = self._isnan or o_nan
+        inf_minus_inf = self._isinf and o_inf and a[0] != o_neg
+        fin = fl_finite(self) and not o_nan and not o_inf
+        return {
+            'wf': r._real._c >= 0 and not (r._isinf and r._isnan),
+            # NaN operand, or inf - inf (invalid): NaN
+            'nan': r._isnan == (nan_in or (not nan_in and inf_minus_inf)),
+            # an infinite operand otherwise gives that infinity
+            'inf': r._isinf == (not nan_in and not inf_minus_inf and (self._isinf or o_inf)),
+            'inf_sign': implies(r._isinf, r._real._s == ite(self._isinf, a[0], o_neg)),
+            # finite operands: the exact sum, zero sign per IEEE 754 6.3
+            'sum': implies(fin, t_is_sum(trip(r), a, b)),
+            'zero_sign': implies(fin and r._real._c == 0, r._real._s == (a[2] == 0 and b[2] == 0 and a[0] and b[0])),
+            'no_ctx': r._ctx is None,
+        }
+
+    def raises(self, other):
+        return {'ValueError': (not q_dyadic(other)) if cls_name(other) == 'Fraction' else False}
+
+
+class Float___mul__(Contract):
+    target = 'fpy2.number.number.floats:Float.__mul__'
+    params = {'self': 'Float', 'other': 'Float | RealFloat | int | float | Fraction'}
+    returns = 'Float'
+    properties = ['C05']
+    split = ['other']
+    options = {'solve_eqs': True}
+
+    def post(self, other, result):
+        r = result
+        a = trip(self)
+        b = trip(other)
+        o_nan, o_inf, o_neg = special(other)
+        nan_in = self._isnan or o_nan
+        o_zero = not o_nan and not o_inf and b[2] == 0
+        s_zero = fl_finite(self) and a[2] == 0
+        inf_times_zero = (self._isinf and o_zero) or (o_inf and s_zero)
+        fin = fl_finite(self) and not o_nan and not o_inf
+        return {
+            'wf': r._real._c >= 0 and not (r._isinf and r._isnan),
+            # NaN operand, or inf * 0 (invalid): NaN
+            'nan': r._isnan == (nan_in or inf_times_zero),
+            'inf': r._isinf == (not nan_in and not inf_times_zero and (self._isinf or o_inf)),
+            # sign of a product (infinite or finite, zero included) is the XOR of the signs
+            'sign': implies(not r._isnan, r._real._s == xor(a[0], b[0])),
+            'prod': implies(fin, t_is_prod(trip(r), a, b)),
+            'no_ctx': r._ctx is None,
+        }
+
+    def raises(self, other):
+        return {'ValueError': (not q_dyadic(other)) if cls_name(other) == 'Fraction' else False}
+
+
+class Float___pow__(Contract):
+    target = 'fpy2.number.number.floats:Float.__pow__'
+    params = {'self': 'Float', 'exponent': 'int'}
+    returns = 'Float'
+    properties = ['C05']
+
+    def post(self, exponent, result):
+        r = result
+        k = exponent
+        return {
+            'wf': r._real._c >= 0 and not (r._isinf and r._isnan),
+            # x^0 = 1 for every x (IEEE 754 9.2.1 pown), NaN and infinity included
+            'zeroth': implies(k == 0, fl_finite(r) and t_is_int(trip(r), 1) and not r._real._s),
+            'nan': implies(k > 0, r._isnan == self._isnan),
+            'inf': implies(k > 0, r._isinf == self._isinf),
+            'sign': implies(k > 0 and not self._isnan, r._real._s == (self._real._s and fmod(k, 2) == 1)),
+            'magnitude': implies(k > 0 and fl_finite(self),
+                                 t_mag_eq(trip(r), (False, self._real._exp * k, ipow(self._real._c, k)))),
+            'no_ctx': r._ctx is None,
+        }
+
+    def raises(self, exponent):
+        return {'ValueError': exponent < 0}
+
+
+# ---------------------------------------------------------------------------
+# order (H2)
+
+class Float_compare(Contract):
+    target = 'fpy2.number.number.floats:Float.compare'
+    params = {'self': 'Float', 'other': 'Float | RealFloat | int | float | Fraction'}
+    returns = 'Ordering | None'
+    properties = ['C05']
+    split = ['other']
+    options = {'solve_eqs': True}
+
+    def post(self, other, result):
+        lt, eq, gt = xcmp3(self, other)
+        return {
+            'none_iff_unordered': (result is None) == (not lt and not eq and not gt),
+            'less': ord_is(result, 'LESS') == lt,
+            'equal': ord_is(result, 'EQUAL') == eq,
+            'greater': ord_is(result, 'GREATER') == gt,
+        }
+
+    def raises(self, other):
+        return {}
+
+
+class Float___eq__(Contract):
+    target = 'fpy2.number.number.floats:Float.__eq__'
+    params = {'self': 'Float', 'other': 'Float | RealFloat | int | float | Fraction | None'}
+    returns = 'bool'
+    properties = ['C05']
+    split = ['other']
+
+    def post(self, other, result):
+        return {'eq': result == (False if other is None else xcmp3(self, other)[1])}
+
+    def raises(self, other):
+        return {}
+
+
+class Float___lt__(Contract):
+    target = 'fpy2.number.number.floats:Float.__lt__'
+    params = {'self': 'Float', 'other': 'Float | RealFloat | int | float | Fraction'}
+    returns = 'bool'
+    properties = ['C05']
+    split = ['other']
+
+    def post(self, other, result):
+        return {'lt': result == xcmp3(self, other)[0]}
+
+    def raises(self, other):
+        return {}
+
+
+class Float___le__(Contract):
+    target = 'fpy2.number.number.floats:Float.__le__'
+    params = {'self': 'Float', 'other': 'Float | RealFloat | int | float | Fraction'}
+    returns = 'bool'
+    properties = ['C05']
+    split = ['other']
+
+    def post(self, other, result):
+        c = xcmp3(self, other)
+        return {'le': result == (c[0] or c[1])}
+
+    def raises(self, other):
+        return {}
+
+
+class Float___gt__(Contract):
+    target = 'fpy2.number.number.floats:Float.__gt__'
+    params = {'self': 'Float', 'other': 'Float | RealFloat | int | float | Fraction'}
+    returns = 'bool'
+    properties = ['C05']
+    split = ['other']
+
+    def post(self, other, result):
+        return {'gt': result == xcmp3(self, other)[2]}
+
+    def raises(self, other):
+        return {}
+
+
+class Float___ge__(Contract):
+    target = 'fpy2.number.number.floats:Float.__ge__'
+    params = {'self': 'Float', 'other': 'Float | RealFloat | int | float | Fraction'}
+    returns = 'bool'
+    properties = ['C05']
+    split = ['other']
+
+    def post(self, other, result):
+        c = xcmp3(self, other)
+        return {'ge': result == (c[2] or c[1])}
+
+    def raises(self, other):
         return {}
